@@ -49,6 +49,7 @@ type ItemResult struct {
 	SampleObl    string
 	IfConverted  int
 	UFCongruence int
+	Truncated     bool // exploration stopped after 24 counterexamples
 	Summarized    int // calls of scalar-pure leaf functions evaluated by a merged summary (summarize.go)
 	CollisionOnly int // satisfiable only through collisions of uninterpreted functions: not counterexamples
 	Relaxed      int // obligations discharged in the real rounding-error model
@@ -62,6 +63,7 @@ type ExecCfg struct {
 	MapDesc   bool
 	Known     map[string]bool
 	MaxConc   int
+	UFGeneric bool // counterexample models must be free of collisions of the uninterpreted functions
 }
 
 type Exec struct {
@@ -74,6 +76,7 @@ type Exec struct {
 	consts map[*ssa.Const]Value
 	harness *ssa.Function
 	shape   []int
+	violTotal int
 	violSeen map[string]int
 	aesApps  map[*Term]bool
 	b64seq   int
@@ -94,6 +97,7 @@ func (ex *Exec) RunItem(h *ssa.Function, shape []int) (out *ItemResult) {
 	ex.res = &ItemResult{Harness: h.Name(), Pkg: h.Pkg.Pkg.Path(), Shape: shape, Reached: map[string]int{}, Funcs: map[string]bool{}}
 	ex.consts = map[*ssa.Const]Value{}
 	ex.violSeen = map[string]int{}
+	ex.violTotal = 0
 	ex.aesApps = map[*Term]bool{}
 	ex.harness = h
 	ex.shape = shape
@@ -130,6 +134,12 @@ func (ex *Exec) RunItem(h *ssa.Function, shape []int) (out *ItemResult) {
 		s := ex.work[len(ex.work)-1]
 		ex.work = ex.work[:len(ex.work)-1]
 		ex.runPath(s)
+		if ex.violTotal >= 24 && len(ex.res.Violations) >= 2 && !ex.cfg.UFGeneric {
+			// the item's verdict is settled (the driver replays the counterexamples); the remaining paths of a badly
+			// broken tree are not explored
+			ex.res.Truncated = true
+			break
+		}
 		if ex.res.Paths > ex.cfg.MaxPaths {
 			ex.res.Inconclusive = append(ex.res.Inconclusive, fmt.Sprintf("path budget %d exceeded", ex.cfg.MaxPaths))
 			break
@@ -418,7 +428,7 @@ func (ex *Exec) modelFor(st *State, extra *Term) (string, []ReplayVal) {
 	// If no such model exists the counterexample exists only through collisions and is not reported.
 	var g []*Term
 	var evals []*Term
-	if extra != nil {
+	if extra != nil && ex.cfg.UFGeneric {
 		if g = ex.ufGeneric(st); g != nil {
 			G := ex.ctx.True
 			for _, t := range g {
@@ -428,8 +438,10 @@ func (ex *Exec) modelFor(st *State, extra *Term) (string, []ReplayVal) {
 		}
 	}
 	res, model, ev := ex.sol.CheckEval(ex.ctx, as, true, evals)
-	if res == "sat" && len(ex.ctx.Axioms) > 0 {
-		// UF inverse axioms are only brought in to confirm a satisfiable answer (unsat without them stays unsat with them)
+	if res == "sat" && len(ex.ctx.Axioms) > 0 && (ex.cfg.UFGeneric || extra == nil || eagerAxioms) {
+		// UF inverse axioms are only brought in to confirm a satisfiable answer (unsat without them stays unsat with
+		// them); for counterexamples of obligations this is left to the second pass the driver makes when the first
+		// model does not replay natively (the confirmation query can take minutes on paths with many AES applications)
 		as = append(as, ex.ctx.Axioms...)
 		res, model, ev = ex.sol.CheckEval(ex.ctx, as, true, evals)
 	}
@@ -525,6 +537,9 @@ func (ex *Exec) record(st *State, kind, label, knownID string, vals []ReplayVal)
 	f := Finding{Harness: ex.harness.Name(), Pkg: ex.res.Pkg, Shape: ex.shape, Kind: kind, Label: label, Pos: ex.posOf(st), KnownID: knownID, Values: vals, MapDesc: ex.cfg.MapDesc}
 	key := kind + "|" + label + "|" + knownID
 	ex.violSeen[key]++
+	if kind != "known" {
+		ex.violTotal++
+	}
 	if ex.violSeen[key] > 2 {
 		return
 	}
@@ -1444,6 +1459,7 @@ func (ex *Exec) callFunction(st *State, fr *Frame, instr *ssa.Call, fv FuncV, ar
 }
 
 var noSummaries = os.Getenv("GOSMT_NO_SUMMARIES") != ""
+var eagerAxioms = os.Getenv("GOSMT_EAGER_AXIOMS") != ""
 
 // ---------- operators ----------
 
